@@ -519,3 +519,129 @@ package connect
 //@ func (*protoJSONCodec).Marshal(c, message) (res, err)
 //@   tags C01
 //@   ensures err == nil ==> seq(res) == jsonenc(mval(message))        // label: encodes-the-message
+
+// ---------------------------------------------------------------------------
+// interceptor.go / option.go: interceptor chains (C16)
+// ---------------------------------------------------------------------------
+
+// flat(i): the leaf interceptors of i in declaration order (first = outermost).
+// For a leaf it is [i]; for a *chain it is fixed when the chain is constructed
+// (clause `defines` of newChain; chain.interceptors is never written afterwards).
+//@ constfield chain.interceptors
+//@ spec flat(i ref) seq
+//@ axiom flat_nil: flat(nil) == []
+//@ axiom flat_leaf: forall i ref :: {flat(i)} i != nil && !typeis(i, "*chain") ==> flat(i) == [i]
+// frp(R, k) = flat(R[k-1]) ++ ... ++ flat(R[0])      (a chain stores its members in reverse)
+//@ spec frp(r seq, k int) seq
+//@ spec unfoldFrp(r seq, k int) bool = true
+//@ axiom frp_zero: forall r seq :: {frp(r, 0)} frp(r, 0) == []
+//@ axiom frp_step: forall r seq, k int :: {unfoldFrp(r, k)} 0 <= k && k < |r| ==> frp(r, k + 1) == flat(r[k]) ++ frp(r, k)
+// fall(X, j) = flat(X[j]) ++ ... ++ flat(X[|X|-1])    (declaration order)
+//@ spec fall(x seq, j int) seq
+//@ spec unfoldFall(x seq, j int) bool = true
+//@ axiom fall_end: forall x seq, j int :: {fall(x, j)} j >= |x| ==> fall(x, j) == []
+//@ axiom fall_step: forall x seq, j int :: {unfoldFall(x, j)} 0 <= j && j < |x| ==> fall(x, j) == flat(x[j]) ++ fall(x, j + 1)
+// wrapAll(kind, L, f) = wrap1(kind, L[0], wrap1(kind, L[1], ... f)): the first element is outermost.
+// kind: 1 WrapUnary, 2 WrapStreamingClient, 3 WrapStreamingHandler. wrap1 is what a leaf's method returns.
+//@ spec wrap1(kind int, leaf ref, f ref) ref
+//@ spec wrapAll(kind int, l seq, f ref) ref
+//@ spec unfoldWrap(l seq) bool = true
+//@ axiom wrapAll_nil: forall kind int, l seq, f ref :: {wrapAll(kind, l, f)} |l| == 0 ==> wrapAll(kind, l, f) == f
+//@ axiom wrapAll_cons: forall kind int, l seq, f ref :: {wrapAll(kind, l, f), unfoldWrap(l)} |l| > 0 ==> wrapAll(kind, l, f) == wrap1(kind, l[0], wrapAll(kind, l[1:], f))
+
+//@ lemma wrap_append(kind int, a seq, b seq, f ref): wrapAll(kind, a ++ b, f) == wrapAll(kind, a, wrapAll(kind, b, f))
+//@   tags C16
+//@   measure |a|
+//@   generalizing a
+//@   hint unfoldWrap(a) && unfoldWrap(a ++ b) && (|a| > 0 ==> (a ++ b)[1:] == a[1:] ++ b) && (|a| == 0 ==> a ++ b == b)
+//@   trigger wrapAll(kind, a, wrapAll(kind, b, f))
+
+//@ lemma frp_prefix(r seq, s seq, k int): (forall j int :: {r[j]} 0 <= j && j < k ==> r[j] == s[j]) && k <= |r| && k <= |s| ==> frp(r, k) == frp(s, k)
+//@   tags C16
+//@   by induction on k from 0 to 1000000000000000000000000000000
+//@   hint unfoldFrp(r, k) && unfoldFrp(s, k)
+//@   trigger frp(r, k), frp(s, k)
+
+// Interface contract: what an interceptor's Wrap methods return. For a leaf this
+// names its result (wrap1); for *chain it is proved (clause implements).
+//@ trusted func Interceptor.WrapUnary(i, next) res
+//@   requires i != nil
+//@   ensures res == wrapAll(1, flat(i), next)
+//@ trusted func Interceptor.WrapStreamingClient(i, next) res
+//@   requires i != nil
+//@   ensures res == wrapAll(2, flat(i), next)
+//@ trusted func Interceptor.WrapStreamingHandler(i, next) res
+//@   requires i != nil
+//@   ensures res == wrapAll(3, flat(i), next)
+
+//@ func newChain(interceptors) res
+//@   tags C16
+//@   use frp_prefix
+//@   defines flat(res) == frp(seq(res.interceptors), |res.interceptors|)
+//@   ensures fresh(res) && typeis(res, "*chain") && flat(res) == fall(seq(interceptors), 0)        // label: flattens-in-declaration-order-skipping-nil
+//@   ensures forall j int :: {seq(res.interceptors)[j]} 0 <= j && j < |res.interceptors| ==> seq(res.interceptors)[j] != nil    // label: members-are-non-nil
+//@   loop i:
+//@     invariant 0 - 1 <= i && i < |interceptors| && unfoldFall(seq(interceptors), i) && unfoldFall(seq(interceptors), i + 1)
+//@     invariant frp(seq(chain.interceptors), |chain.interceptors|) == fall(seq(interceptors), i + 1) && unfoldFrp(seq(chain.interceptors), |chain.interceptors| - 1)
+//@     invariant forall j int :: {seq(chain.interceptors)[j]} 0 <= j && j < |chain.interceptors| ==> seq(chain.interceptors)[j] != nil
+//@     decreases i + 1
+
+// Every *chain is built by newChain (the only function allocating the type) and never modified.
+//@ typeinv *chain c by newChain: flat(c) == frp(seq(c.interceptors), |c.interceptors|) && (forall j int :: {seq(c.interceptors)[j]} 0 <= j && j < |c.interceptors| ==> seq(c.interceptors)[j] != nil)
+
+//@ func (*chain).WrapUnary(c, next) res
+//@   tags C16
+//@   requires c != nil
+//@   use wrap_append
+//@   implements Interceptor.WrapUnary
+//@   loop rangeindex:
+//@     invariant 0 - 1 <= rangeindex && rangeindex < |c.interceptors| && unfoldFrp(seq(c.interceptors), rangeindex + 1)
+//@     invariant next == wrapAll(1, frp(seq(c.interceptors), rangeindex + 1), next0)
+//@     decreases |c.interceptors| - rangeindex
+
+//@ func (*chain).WrapStreamingClient(c, next) res
+//@   tags C16
+//@   requires c != nil
+//@   use wrap_append
+//@   implements Interceptor.WrapStreamingClient
+//@   loop rangeindex:
+//@     invariant 0 - 1 <= rangeindex && rangeindex < |c.interceptors| && unfoldFrp(seq(c.interceptors), rangeindex + 1)
+//@     invariant next == wrapAll(2, frp(seq(c.interceptors), rangeindex + 1), next0)
+//@     decreases |c.interceptors| - rangeindex
+
+//@ func (*chain).WrapStreamingHandler(c, next) res
+//@   tags C16
+//@   requires c != nil
+//@   use wrap_append
+//@   implements Interceptor.WrapStreamingHandler
+//@   loop rangeindex:
+//@     invariant 0 - 1 <= rangeindex && rangeindex < |c.interceptors| && unfoldFrp(seq(c.interceptors), rangeindex + 1)
+//@     invariant next == wrapAll(3, frp(seq(c.interceptors), rangeindex + 1), next0)
+//@     decreases |c.interceptors| - rangeindex
+
+// shiftOf(y, x): y is x with one element put in front.
+//@ spec shiftOf(y seq, x seq) bool = |y| == |x| + 1 && (forall i int :: {x[i]} 0 <= i && i < |x| ==> y[i + 1] == x[i])
+//@ lemma fall_shift(y seq, x seq, k int): shiftOf(y, x) ==> fall(y, k) == fall(x, k - 1)
+//@   tags C16
+//@   by induction on k from 1 to |y| down
+//@   hint unfoldFall(y, k) && unfoldFall(x, k - 1) && unfoldFall(y, k - 1) && unfoldFall(x, k - 2)
+//@   trigger shiftOf(y, x), fall(y, k)
+
+//@ func (*interceptorsOption).chainWith(o, current) res
+//@   tags C16
+//@   requires o != nil
+//@   use fall_shift
+//@   ensures unfoldFall(seq(o.Interceptors), 0) && flat(res) == flat(current) ++ fall(seq(o.Interceptors), 0)        // label: appends-in-declaration-order
+//@   assert@call(newChain#2): shiftOf(seq(arg0), seq(o.Interceptors)) && seq(arg0)[0] == current && unfoldFall(seq(arg0), 0) && unfoldFall(seq(arg0), 1)   // label: argument-is-current-followed-by-the-option's-interceptors
+
+//@ func (*interceptorsOption).applyToClient(o, config)
+//@   tags C16
+//@   requires o != nil && config != nil
+//@   assigns config.Interceptor
+//@   ensures flat(config.Interceptor) == old(flat(config.Interceptor)) ++ fall(seq(o.Interceptors), 0)   // label: appends-in-declaration-order
+
+//@ func (*interceptorsOption).applyToHandler(o, config)
+//@   tags C16
+//@   requires o != nil && config != nil
+//@   assigns config.Interceptor
+//@   ensures flat(config.Interceptor) == old(flat(config.Interceptor)) ++ fall(seq(o.Interceptors), 0)   // label: appends-in-declaration-order
